@@ -349,6 +349,9 @@ func random(t *rt.Thread, c *rt.GoCont) (rt.Cont, error) {
 		return c.PushingNext1(t.Runtime, rt.FloatValue(rand.Float64())), nil
 	case 1:
 		n, err = c.IntArg(0)
+		if err != nil {
+			return nil, err
+		}
 		// Special case, new in Lua 5.4: math.random(0) returns a uniform integer.
 		if n == 0 {
 			return c.PushingNext1(t.Runtime, rt.IntValue(int64(rand.Uint64()))), nil
